@@ -84,6 +84,15 @@ def scenarios() -> dict:
     pkg.modules.append(pg.Mod(("pk", "app"), "main", imports=["from pk.core.impl.shapes import Shape, Solid, Edge"],
                               decls=[pg.Fn("draw", [pg.Param("a", "Shape"), pg.Param("b", "Solid"), pg.Param("c", "Edge")], "Shape"), pg.Cls("Special", bases=["Solid"])]))
     out["unrelated-reexporting-packages"] = pkg
+    # a module-level alias of a class of another module, used as base class several times (in the module that defines
+    # the alias and, imported, in a later one)
+    pkg = pg.Pkg()
+    real = pg.Mod(("pk",), "real", decls=[pg.Cls("RealBase", methods=[pg.Fn("real_method", role="inst")]), pg.Cls("OtherBase")])
+    al = pg.Mod(("pk",), "aliases", imports=["from pk import real", "AliasBase = real.RealBase", "SecondAlias = real.OtherBase"],
+                decls=[pg.Cls("First", bases=["AliasBase"]), pg.Cls("Second", bases=["AliasBase"]), pg.Cls("Third", bases=["AliasBase"]), pg.Cls("Fourth", bases=["SecondAlias"]), pg.Cls("Fifth", bases=["SecondAlias"])])
+    later = pg.Mod(("pk",), "zz_later", imports=["from pk import real", "AliasBase = real.RealBase"], decls=[pg.Cls("Sixth", bases=["AliasBase"]), pg.Cls("Seventh", bases=["AliasBase"])])
+    pkg.modules += [real, al, later]
+    out["class-alias-used-as-base-several-times"] = pkg
     return out
 
 
